@@ -7,6 +7,7 @@ import itertools
 import multiprocessing as mp
 import os
 import random
+import zlib
 import re
 import traceback
 from fractions import Fraction
@@ -156,7 +157,7 @@ def build_lines(fmt, thorough, seed):
         return out
     out = []
     idx = 0
-    rnd = random.Random(seed + hash(fmt) % 1000)
+    rnd = random.Random(seed + zlib.crc32(fmt.encode()) % 1000)  # not hash(): independent of PYTHONHASHSEED
     signs = list(itertools.product((1, 0, -1), repeat=3))
     for code, marker in CODES[fmt]:
         combos = signs if (thorough or code in (3, "NN", 1, "", 100)) else rnd.sample(signs, 9) + [(1, 1, 1), (-1, -1, -1), (0, 0, 0)]
@@ -231,7 +232,7 @@ def _analyse(fmt, tier, seed, which, res):
         # UCLCHEM networks always carry H2 (its shielding factor is a registered derived quantity)
         alln.append({"reactants": ["H", "H"], "products": ["H2"], "a": "1.0e-17", "b": "0.0", "c": "0.0", "tmin": "0", "tmax": "0", "idx": len(alln) + 1, "code": ""})
     spec = {"files": [{"name": f"net.{fmt}", "content": file_text(fmt, alln)}], "network": {"filelist": f"net.{fmt}", "fileformats": fmt},
-            "targets": [dict(proj.TARGETS["dense"]), dict(proj.TARGETS["odeint"])]}
+            "targets": [dict(proj.TARGETS[t]) for t in (("dense", "odeint", "sparse", "cusparse") if which == "C06" else ("dense", "odeint"))]}
     p = proj.render(f"rates-{fmt}", spec)
     if not p.ok:
         # a well-formed file the generator cannot read: that is C07's subject, but nothing can be decided here
@@ -360,17 +361,27 @@ def _analyse(fmt, tier, seed, which, res):
                     res["viol"].append({"key": f"{fmt}:{tdir}:adjacent", "what": f"at T={tv} not exactly one of the adjacent windows is active", "replay": {"format": fmt, "T": str(tv), "replay_note": "guards are literal comparisons in the compiled IR"}})
                 else:
                     res["unknown"].append((f"{fmt}/{tdir}:adjacent", rr))
+        res["solver_s"] += time.time() - t0
+    if which == "C06":
+        for tdir in ("cvode_dense", "cvode_sparse", "cvode_cusparse", "odeint_rosenbrock4"):
+            if not p.target_ok(tdir):
+                continue
             # callers hand EvalRates a zero-initialised k and nothing else writes it
-            fx = ode.run_fex(p, tdir)
-            jx = ode.run_jac(p, tdir)
+            # (cusparse: one thread walks two cells, so a work array that is cleared once per thread
+            # instead of once per cell reaches EvalRates with the previous cell's rates)
+            ncell = 2 if ode.KIND[tdir] == "cusparse" else 1
+            fx = ode.run_fex(p, tdir, nsystem=ncell)
+            jx = ode.run_jac(p, tdir, nsystem=ncell)
             for rn, nm in ((fx, "Fex"), (jx, "Jac")):
                 res["n"] += 1
+                if rn.compile_errors:
+                    res["unknown"].append((f"{fmt}/{tdir}:{nm}:kzero", "does not compile"))
+                    continue
                 bad = [n for n in rn.notes if "not zero-initialised" in n]
                 if bad:
                     res["viol"].append({"key": f"{fmt}:{tdir}:{nm}:kzero", "what": f"{nm} passes a rate array that is not zero-initialised to EvalRates: {bad[0]}", "replay": {"format": fmt, "replay_note": "read from the compiled IR"}})
                 else:
                     res["ok"] += 1
-        res["solver_s"] += time.time() - t0
 
 
 def _point(model, run, rnd=None):
